@@ -344,6 +344,49 @@ pub fn apply_op<D: Distance>(
 }
 
 /// C05: everything the writer API reports about the item store equals the model.
+/// The iterator is a value of a type that implements `Iterator`: the adaptors a caller may use on it (`last`, `nth`,
+/// `count`, `skip`) must agree with stepping through it.
+fn check_iter_adaptors<I>(
+    sig: &str,
+    who: &str,
+    metric: Metric,
+    m: &IndexModel,
+    mut make: impl FnMut() -> Result<I, Fail>,
+) -> Result<(), Fail>
+where
+    I: Iterator<Item = arroy::Result<(u32, Vec<f32>)>>,
+{
+    let n = m.items.len();
+    let want_of = |k: usize| m.items.iter().nth(k).map(|(id, v)| (*id, IndexModel::observable(metric, v)));
+    let same = |got: &Option<arroy::Result<(u32, Vec<f32>)>>, want: &Option<(u32, Vec<f32>)>| match (got, want) {
+        (None, None) => true,
+        (Some(Ok((gi, gv))), Some((wi, wv))) => gi == wi && bits_eq(gv, wv),
+        _ => false,
+    };
+    let show = |got: &Option<arroy::Result<(u32, Vec<f32>)>>| match got {
+        None => "None".to_string(),
+        Some(Ok((i, v))) => format!("({i}, len {})", v.len()),
+        Some(Err(e)) => format!("Err({e:?})"),
+    };
+    let last = make()?.last();
+    let want_last = if n == 0 { None } else { want_of(n - 1) };
+    if !same(&last, &want_last) {
+        return violation(sig, format!("{who}.iter().last() = {}, the last stored item is {:?}", show(&last), want_last.map(|(i, v)| (i, v.len()))));
+    }
+    let count = make()?.count();
+    if count != n {
+        return violation(sig, format!("{who}.iter().count() = {count}, {n} items are stored"));
+    }
+    for k in [0usize, n / 2, n.saturating_sub(1), n] {
+        let got = make()?.nth(k);
+        let want = want_of(k);
+        if !same(&got, &want) {
+            return violation(sig, format!("{who}.iter().nth({k}) = {}, expected {:?}", show(&got), want.map(|(i, v)| (i, v.len()))));
+        }
+    }
+    Ok(())
+}
+
 pub fn compare_store_writer<D: Distance>(
     metric: Metric,
     w: &Writer<D>,
@@ -385,6 +428,7 @@ pub fn compare_store_writer<D: Distance>(
     if n != m.items.len() {
         return violation(sig, format!("iter() yields {n} items, {} are stored", m.items.len()));
     }
+    check_iter_adaptors(sig, "writer", metric, m, || w.iter(rtxn).map_err(|e| Fail::Infra(format!("iter: {e:?}"))))?;
     let empty = w.is_empty(rtxn).map_err(|e| Fail::Infra(format!("is_empty: {e:?}")))?;
     if empty != m.items.is_empty() {
         return violation(sig, format!("is_empty() = {empty} with {} stored items", m.items.len()));
@@ -473,6 +517,14 @@ pub fn compare_store_reader<D: Distance>(
     }
     if n != m.items.len() {
         return violation(sig, format!("reader.iter() yields {n} of {} items", m.items.len()));
+    }
+    check_iter_adaptors(sig, "reader", metric, m, || r.iter(rtxn).map_err(|e| Fail::Infra(format!("reader.iter: {e:?}"))))?;
+    // "counts ... reported by a reader agree": the statistics count the stored items once, however many trees reach them
+    match catch(|| r.stats(rtxn)) {
+        Ok(Ok(st)) if st.leaf == m.items.len() as u64 => {}
+        Ok(Ok(st)) => return violation(sig, format!("reader.stats().leaf = {} but {} items are stored", st.leaf, m.items.len())),
+        Ok(Err(e)) => return violation(sig, format!("reader.stats() failed: {e:?}")),
+        Err(p) => return violation(sig, format!("reader.stats() panicked: {}", p.message)),
     }
     for (id, mv) in &m.items {
         let want = IndexModel::observable(metric, mv);
